@@ -336,6 +336,16 @@ def run(ctx, rep):
                 ga1 = " ".join(cvs[1].f.get("args", []))
                 if "Pruner" in ga0 and "Finalizer" in ga1 and c.dominates(cvs[0].bb, cvs[1].bb):
                     rep.ok("C08.order", "convert(Pruner with the tracker) → convert(Finalizer)", None)
+                    # both conversions walk the program by pointer identity: a tracker that merges nodes with equal roots
+                    # (MaxSharing) gives one set of type variables to a live node and to its twin in a never-executed branch,
+                    # so the dead branch's constraints leak into the pruned program's types
+                    for cv_, ga_, who in ((cvs[0], ga0, "Pruner"), (cvs[1], ga1, "Finalizer")):
+                        if "dag::InternalSharing" in ga_ and "MaxSharing" not in ga_:
+                            rep.ok("C08.order", "%s conversion shares by pointer identity (InternalSharing)" % who, None)
+                        else:
+                            rep.violation("C08.order", "pipeline:sharing:" + who, "the %s conversion runs under <%s>, not InternalSharing: nodes that are equal "
+                                          "up to their roots but distinct in memory are merged, and a twin in a never-executed branch constrains "
+                                          "the types of the executed one" % (who, ga_[:80]), cv_.where())
                     env = fm.closure_env(F, c)
                     Tc = Terms(c)
                     # the Pruner is built from the captured tracker
